@@ -415,6 +415,9 @@ func (tic *TermInCommittee) validatePreprepare(ppm *interfaces.PreprepareMessage
 
 	header := ppm.Content().SignedHeader()
 	sender := ppm.Content().Sender()
+	if header.MessageType() != protocol.LEAN_HELIX_PREPREPARE {
+		return errors.Errorf("PREPREPARE signed header has message type %s", header.MessageType())
+	}
 	if err := tic.keyManager.VerifyConsensusMessage(header.BlockHeight(), header.Raw(), sender); err != nil {
 		tic.logger.ConsensusTrace("failed to verify preprepare - maybe a committee mismatch?", err, log.Stringable("sender", sender))
 
@@ -464,6 +467,10 @@ func (tic *TermInCommittee) HandlePrepare(pm *interfaces.PrepareMessage) {
 
 	if err := tic.keyManager.VerifyConsensusMessage(header.BlockHeight(), header.Raw(), sender); err != nil {
 		tic.logger.Info("LHMSG RECEIVED PREPARE IGNORE - verification failed for Prepare block-height=%v view=%d block-hash=%s err=%v", header.BlockHeight(), header.View(), header.BlockHash(), err)
+		return
+	}
+	if header.MessageType() != protocol.LEAN_HELIX_PREPARE {
+		tic.logger.Info("LHMSG RECEIVED PREPARE IGNORE - signed header has message type %s", header.MessageType())
 		return
 	}
 	if header.View() < tic.State.View() {
@@ -548,6 +555,10 @@ func (tic *TermInCommittee) HandleCommit(cm *interfaces.CommitMessage) {
 
 	if err := tic.keyManager.VerifyConsensusMessage(header.BlockHeight(), header.Raw(), sender); err != nil {
 		tic.logger.Info("LHMSG RECEIVED COMMIT IGNORE - verification failed for Commit block-height=%d view=%d block-hash=%s err=%v", header.BlockHeight(), header.View(), header.BlockHash(), err)
+		return
+	}
+	if header.MessageType() != protocol.LEAN_HELIX_COMMIT {
+		tic.logger.Info("LHMSG RECEIVED COMMIT IGNORE - signed header has message type %s", header.MessageType())
 		return
 	}
 	tic.logger.Debug("LHMSG RECEIVED COMMIT STORE")
@@ -666,6 +677,10 @@ func (tic *TermInCommittee) isViewChangeValid(expectedLeaderFromNewView primitiv
 		return errors.Wrapf(err, "keyManager.VerifyConsensusMessage failed")
 	}
 
+	if header.MessageType() != protocol.LEAN_HELIX_VIEW_CHANGE {
+		return errors.Errorf("signed header has message type %s", header.MessageType())
+	}
+
 	if !proofsvalidator.ValidatePreparedProof(tic.State.Height(), vcmView, preparedProof, tic.keyManager, tic.committeeMembers, func(view primitives.View) primitives.MemberId { return tic.calcLeaderMemberId(view) }) {
 		return fmt.Errorf("failed ValidatePreparedProof()")
 	}
@@ -716,6 +731,10 @@ func (tic *TermInCommittee) HandleNewView(nvm *interfaces.NewViewMessage) {
 	viewChangeConfirmationsIter := nvmHeader.ViewChangeConfirmationsIterator()
 	viewChangeConfirmations := make([]*protocol.ViewChangeMessageContent, 0, 1)
 
+	if nvmHeader.MessageType() != protocol.LEAN_HELIX_NEW_VIEW {
+		tic.logger.Info("LHMSG RECEIVED NEW_VIEW IGNORE - signed header has message type %s", nvmHeader.MessageType())
+		return
+	}
 	if tic.State.View() > nvmHeader.View() {
 		tic.logger.Info("LHMSG RECEIVED NEW_VIEW IGNORE - current view %d is higher than message view %d", tic.State.View(), nvmHeader.View())
 		return
